@@ -102,6 +102,24 @@ def run(ctx):
             for (t, s_) in ((0, 2), (tracks - 1, spt - 1), (tracks // 2, 1)):
                 cases.append(vlib.Case('blank2-%d-%d-%02x' % (tracks, spt, fillb), {bname: bytes(img)}, ['--file', '@' + bname, 'dump-sector', '0', str(t), str(s_)],
                                        meta={'kind': 'il', 'tracks': tracks, 'spt': spt, 'sides': 2, 'want': (2 * t) * spt + s_, 'pt': (0, t, s_), 'blank2': True}))
+    # the same kind of image cut short (a copy that stops once the formatted side has no more data to offer): at most one side's worth of
+    # sectors is left, the second side is still unformatted - tracks must still alternate by side, and what is cut off must fail to read
+    for (tracks, spt, keep_tracks) in ((40, 10, 20), (40, 10, 13), (80, 10, 40), (40, 18, 19)):
+        img = bytearray()
+        a, b = build_side(tracks, spt, b'SIDE0')
+        for t in range(tracks):
+            for s_ in range(spt):
+                sec = t * spt + s_
+                img += a if sec == 0 else b if sec == 1 else stamp2((2 * t) * spt + s_)
+            img += bytes([0xE5]) * (spt * 256)
+        cut = bytes(img[:keep_tracks * spt * 256])           # holds tracks 0 .. keep_tracks/2 - 1 of both sides (and half a pair when odd)
+        bname = 'v.ddd' if spt != 10 else 'v.dsd'
+        have = keep_tracks // 2
+        for (t, s_) in ((0, 2), (1, 0), (1, spt - 1), (2, 3), (have - 1, spt - 1), (have + 1, 0), (tracks - 1, 0)):
+            present = (2 * t) * spt + s_ < keep_tracks * spt
+            cases.append(vlib.Case('blank2-cut-%d-%d-%d' % (tracks, spt, keep_tracks), {bname: cut}, ['--file', '@' + bname, 'dump-sector', '0', str(t), str(s_)],
+                                   meta={'kind': 'il', 'tracks': tracks, 'spt': spt, 'sides': 2, 'want': ((2 * t) * spt + s_) if present else None, 'pt': (0, t, s_),
+                                         'blank2': True, 'truncated': True}))
     # an 80-track double-density disc whose catalogue records all 1440 sectors (bit 10 of the count in sector 1 byte 6)
     n_side = 80 * 18
     img = bytearray(b''.join(stamp(i) for i in range(n_side)))
